@@ -57,8 +57,12 @@ def run(tier, v):
             k0, a0 = sigs[0]
             later = [o.path for o in x.trace if o.op == "open" and o.cls == "r" and o.path.startswith("$R0/src/")
                      and (o.k >= k0 if a0.startswith("sig-before") else o.k > k0)]
-            if len(later) > 1:
-                bad.append("did-not-stop(%d-more-source-files-opened)" % min(len(later), 3))
+            # a signal that arrives while the tree is still being listed finds no file in progress: none may be started afterwards
+            first_open = next((o.k for o in base.trace if o.op == "open" and o.cls == "r" and o.path.startswith("$R0/src/")), None)
+            last_listing = max([o.k for o in base.trace if o.op in ("opendir", "readdir", "closedir") and (first_open is None or o.k < first_open)] or [-1])
+            allowed = 0 if k0 < last_listing else 1
+            if len(later) > allowed:
+                bad.append("did-not-stop(%d-more-source-files-opened%s)" % (min(len(later), 3), "-after-a-signal-during-discovery" if allowed == 0 else ""))
         # (2) exit 0 only if nothing was left to do
         if x.exit == 0:
             if sc.check:
